@@ -5,6 +5,7 @@
 //!   yvx-conform buildinfo
 mod frames;
 mod gen_color;
+mod gen_geom;
 mod gen_math;
 mod gen_meta;
 mod replay;
@@ -15,6 +16,7 @@ mod util;
 use std::path::PathBuf;
 
 pub struct Opts {
+    pub plan: String,
     pub out: PathBuf,
     pub shards: usize,
     pub thorough: bool,
@@ -36,7 +38,7 @@ fn main() {
         eprintln!("usage: yvx-conform gen <PROP> --out <dir> [--shards N] [--tier quick|thorough] [--seed S]");
         std::process::exit(2);
     }
-    let mut o = Opts { out: PathBuf::from("."), shards: 1, thorough: false, seed: 1 };
+    let mut o = Opts { plan: String::new(), out: PathBuf::from("."), shards: 1, thorough: false, seed: 1 };
     let mut pos: Vec<String> = Vec::new();
     let mut i = 2;
     while i < args.len() {
@@ -51,6 +53,10 @@ fn main() {
             }
             "--tier" => {
                 o.thorough = args[i + 1] == "thorough";
+                i += 1;
+            }
+            "--plan" => {
+                o.plan = args[i + 1].clone();
                 i += 1;
             }
             "--seed" => {
@@ -73,6 +79,8 @@ fn main() {
                 "C03" => gen_tf::gen_c03(&mut sh, &o),
                 "C10" => gen_tf::gen_c10(&mut sh, &o),
                 "C14" => gen_meta::gen_c14(&mut sh, &o),
+                "GEOM" => gen_geom::gen_geom(&mut sh, &o, &o.plan),
+                "C12DATA" => gen_geom::gen_c12_data(&mut sh, &o),
                 "C18" => gen_math::gen_c18(&mut sh, &o),
                 "C19" => gen_math::gen_c19(&mut sh, &o),
                 "C04" => gen_color::gen_c04(&mut sh, &o),
